@@ -15,6 +15,31 @@ theorem sep_factsE {c : Char} (hsep : sepOk [c] = true) : c ≠ '+' ∧ c ≠ 'e
   · intro e; subst e; simp at h4
   · intro e; subst e; simp at h5
 
+/-- what `fits` says about an E-notation field and a non-zero finite value -/
+theorem round_of_fits_E (f : Field) (dec : Nat) (fmt c : Char) (hk : f.kind = .flt dec fmt [c])
+    (hfmt : fmt = 'E' ∨ fmt = 'e') (neg : Bool) (m : Nat) (e : Int) (hm0 : m ≠ 0)
+    (hfits : Spec.C02.fits f (.dbl (.fin neg m e)) = true) :
+    ∃ r, Dbl.pyRound (.fin neg m e) ((dec : Int) - Dbl.floorLog10 m e) = some r ∧
+      (Dbl.fmtE r dec (fmt == 'E')).length ≤ f.size := by
+  simp only [Spec.C02.fits, Bool.and_eq_true, beq_iff_eq] at hfits
+  obtain ⟨_, hren⟩ := hfits
+  have hz : Dbl.isZero (.fin neg m e) = false := by
+    cases m with
+    | zero => exact absurd rfl hm0
+    | succ n => rfl
+  unfold renderFull at hren
+  rw [hk] at hren
+  cases hp : Dbl.pyRound (.fin neg m e) ((dec : Int) - Dbl.floorLog10 m e) with
+  | none =>
+    rcases hfmt with rfl | rfl <;>
+      simp [Val.isNull, Dbl.isNaN, hz, hp, Except.map, bind, Except.bind] at hren
+  | some r =>
+    refine ⟨r, rfl, ?_⟩
+    rcases hfmt with rfl | rfl <;>
+      simp [Val.isNull, Dbl.isNaN, hz, hp, Except.map, bind, Except.bind, pure, Except.pure,
+        Proofs.FloatLaw.replace_single, Proofs.FloatLaw.subst1_length] at hren <;>
+      simpa using hren
+
 /-- **Floats in E notation, full law.** For every normal double below `2^1013` in magnitude
 (`2^52 ≤ m < 2^53`, `-1000 ≤ e ≤ 960`) and every E-notation float field (any width, up to
 twelve declared decimals, any admitted separator) in which the value fits: the text written
@@ -29,32 +54,15 @@ theorem law_flt_E (f : Field) (dec : Nat) (fmt c : Char) (hk : f.kind = .flt dec
     RenderLaw f (.dbl (.fin neg m e)) := by
   obtain ⟨hc1, hc2, hc3⟩ := sep_facts hsep
   obtain ⟨hc4, hc5, hc6⟩ := sep_factsE hsep
+  have hfits0 := hfits
   simp only [Spec.C02.fits, Bool.and_eq_true, beq_iff_eq] at hfits
   obtain ⟨⟨hgeo, _⟩, hren⟩ := hfits
   have hm0 : m ≠ 0 := by
     intro h0; subst h0
     have := Proofs.Nearest.two_pow_pos 52
     have := hwf.1; omega
-  have hz : Dbl.isZero (.fin neg m e) = false := by
-    cases m with
-    | zero => exact absurd rfl hm0
-    | succ n => rfl
-  have hround : ∃ r, Dbl.pyRound (.fin neg m e) ((dec : Int) - Dbl.floorLog10 m e) = some r ∧
-      (Dbl.fmtE r dec (fmt == 'E')).length ≤ f.size := by
-    unfold renderFull at hren
-    rw [hk] at hren
-    cases hp : Dbl.pyRound (.fin neg m e) ((dec : Int) - Dbl.floorLog10 m e) with
-    | none =>
-      rcases hfmt with rfl | rfl <;>
-        simp [Val.isNull, Dbl.isNaN, hz, hp, Except.map, bind, Except.bind] at hren
-    | some r =>
-      refine ⟨r, rfl, ?_⟩
-      rcases hfmt with rfl | rfl <;>
-        simp [Val.isNull, Dbl.isNaN, hz, hp, Except.map, bind, Except.bind, pure, Except.pure,
-          Proofs.FloatLaw.replace_single, Proofs.FloatLaw.subst1_length] at hren <;>
-        simpa using hren
-  obtain ⟨r, hr, hfit⟩ := hround
-  obtain ⟨t, h1, h2, h3, h4⟩ := fltE_core f dec fmt c hk hfmt hc1 hc2 hc3 hc4 hc5 hc6 neg m e hwf hdec r hr hfit
+  obtain ⟨r, hr, hfit⟩ := round_of_fits_E f dec fmt c hk hfmt neg m e hm0 hfits0
+  obtain ⟨t, h1, h2, h3, h4, _⟩ := fltE_core f dec fmt c hk hfmt hc1 hc2 hc3 hc4 hc5 hc6 neg m e hwf hdec r hr hfit
   have hpf : Dbl.pyFloat (replace t [c] ['.']) = some r := by
     rw [hk] at h3
     simp only [parseText] at h3
